@@ -4,6 +4,8 @@ FILE *bvp_out;
 jmp_buf bvp_jmp;
 int bvp_jmp_armed = 0;
 
+static void quiet(const char *msg) { (void)msg; }
+
 static int op_reset(int argc, char **argv)
    {
    (void)argc; (void)argv;
@@ -16,7 +18,16 @@ static int op_reset(int argc, char **argv)
    fputs("ok", bvp_out);
    return 0;
    }
-static struct op_entry ops_core[] = { { "reset", op_reset }, { NULL, NULL } };
+static void dbg_stderr(const char *msg) { if (msg) fputs(msg, stderr); }
+static int op_dbg(int argc, char **argv)
+   {
+   int on = argc > 1 ? atoi(argv[1]) : 1;
+   bufr_set_debug_handler(on ? dbg_stderr : quiet);
+   bufr_set_debug(on);
+   fputs("ok", bvp_out);
+   return 0;
+   }
+static struct op_entry ops_core[] = { { "reset", op_reset }, { "dbg", op_dbg }, { NULL, NULL } };
 
 static struct op_entry *tables[] = { ops_core, ops_bits, ops_template, ops_ieee, ops_codec, NULL };
 
@@ -59,7 +70,7 @@ static void abort_handler(const char *msg)
    if (bvp_jmp_armed) longjmp(bvp_jmp, 1);
    }
 
-static void quiet(const char *msg) { (void)msg; }
+
 
 int main(int argc, char **argv)
    {
